@@ -458,7 +458,7 @@ def install_queue_tap():
             self.ids.append(i)
             if len(self.ids) == 1:
                 self.head_since[i] = t
-            self.events.append(("put", i, t, item[0], None, None, None))
+            self.events.append(("put", i, t, item[0], None, None, None, None))
 
         def pop(self):
             fr = sys._getframe(1)
@@ -473,7 +473,7 @@ def install_queue_tap():
                 except Exception:
                     ok = False
             task = asyncio.current_task()
-            self.events.append(("pop", i, t, head[0] if head else None, type(handler).__name__, task.get_name() if task else None, ok))
+            self.events.append(("pop", i, t, head[0] if head else None, type(handler).__name__, task.get_name() if task else None, ok, id(handler)))
             super().pop()
             if self.ids:
                 self.ids.popleft()
